@@ -262,4 +262,119 @@ theorem send_sim (c : Case) (p : PSt) (r : Ref) (h : Sim c p r) (payload : Bytes
                 · intro hc; exact absurd (show r.phase = _ from hc) (by rw [hph]; simp)
                 · intro hc; exact absurd (show r.phase = _ from hc) (by rw [hph]; simp)
 
+theorem type_single (ps1 : Bytes) (c : Byte) (m : Rem) : type ps1 [c] m = ((key ps1 c m).1 ++ [], (key ps1 c m).2) := rfl
+
+/-- `sendcontrol` -/
+theorem sendcontrol_sim (c : Case) (p : PSt) (r : Ref) (h : Sim c p r) (n : Nat) (sizes : List Nat) :
+    match Ref.step (prompt c) (blacklist c) (.sendcontrol n) (proxySendcontrol n sizes p).1 r with
+    | .ok r' => Sim c (proxySendcontrol n sizes p).2 r'
+    | .bad => False
+    | _ => True := by
+  unfold Ref.step proxySendcontrol
+  simp only
+  by_cases hph' : ¬ r.phase = .running
+  · rw [phase_bne hph', sim_slot_false h hph']
+    simp only [Bool.not_false, if_true]
+    exact h
+  have hph : r.phase = .running := Decidable.not_not.mp hph'
+  obtain ⟨hslot, halive, hgen, hearly, hmon, hpok, hlenp⟩ := h.running hph
+  have hns : (!p.slot) = false := by rw [hslot]; rfl
+  rw [phase_beq hph, hns]
+  simp only [Bool.false_eq_true, if_false]
+  cases hn34 : (n != 3 && n != 4) with
+  | true => simp
+  | false =>
+    simp only [Bool.false_eq_true, if_false]
+    have hn : n = 3 ∨ n = 4 := by
+      simp only [Bool.and_eq_false_iff, bne_eq_false_iff_eq] at hn34
+      exact hn34
+    have hle : n ≤ 0x1F := by rcases hn with rfl | rfl <;> decide
+    rw [if_pos hle]
+    cases hst : r.rem.status with
+    | some st => simp [Ref.typed, hst]
+    | none =>
+      rw [typed_eq _ _ _ hst, h.ps1, h.rem, react_alive _ _ _ hst]
+      cases hpok' : promptOk (prompt c) (r.since ++ (r.pend ++ (type (prompt c) [UInt8.ofNat n] r.rem).1))
+          (type (prompt c) [UInt8.ofNat n] r.rem).2.status with
+      | false => simp
+      | true =>
+        simp only [if_true]
+        have hg := key_gain (prompt c) (UInt8.ofNat n) r.rem
+        rw [hst] at hg
+        have hty := type_single (prompt c) (UInt8.ofNat n) r.rem
+        generalize hout : (type (prompt c) [UInt8.ofNat n] r.rem).1 = out at hpok'
+        generalize hrem' : (type (prompt c) [UInt8.ofNat n] r.rem).2 = rem' at hpok'
+        have hg' : gain (prompt c) none rem'.status ≤ out.length := by
+          rw [← hout, ← hrem', hty]
+          simpa using hg
+        have hg1 := load_good sizes out p.r h.good
+        obtain ⟨hres, hsz, hscr⟩ := sendcontrol_op (load sizes out p.r) n hle
+        unfold proxyIO
+        simp only [hns, Bool.false_eq_true, if_false]
+        have hsim := quiet_sim c p r h hph (.sendcontrol n) rfl rfl rfl sizes out rem' rfl hscr hpok'
+          (fun hs => by
+            have : gain (prompt c) none rem'.status = (prompt c).length := by simp [gain, hs]
+            simp only [List.length_append]; omega)
+        generalize obsOp (.sendcontrol n) (load sizes out p.r) = o2 at hres hsz hsim
+        obtain ⟨o, r2⟩ := o2
+        simp only at hres hsz hsim ⊢
+        rw [hres]
+        have hb : (TRes.unit == TRes.unit) = true := rfl
+        simp only [resOf, hsz, hb, List.isEmpty_nil, Bool.and_self, if_true]
+        rw [h.ps1] at hsim
+        exact hsim
+
+/-- a read-type call on a proxy whose command has ended (or was terminated) -/
+theorem io_ended (c : Case) (p : PSt) (r : Ref) (h : Sim c p r) (hph : r.phase ≠ .running) (op : Op)
+    (sizes : List Nat) (hz : zeroTimeout op = none) :
+    proxyIO op sizes [] p = (⟨.err .ended, []⟩, p) := by
+  unfold proxyIO
+  rw [sim_slot_false h hph, hz]
+  rfl
+
+theorem zeroTimeout_none (op : Op) (t : Option Nat) (hop : opTimeout op = some t) (ht : (t == some 0) = false) :
+    zeroTimeout op = none := by
+  have ht' : t ≠ some 0 := by rw [← beq_eq_false_iff_ne]; exact ht
+  have key : ∀ t' : Option Nat, t' ≠ some 0 → (match t' with | some 0 => some 0 | _ => none : Option Nat) = none := by
+    intro t' h
+    cases t' with
+    | none => rfl
+    | some T => cases T with
+      | zero => exact absurd rfl h
+      | succ k => rfl
+  cases op with
+  | expect ps t' =>
+    simp only [opTimeout, Option.some.injEq] at hop; subst hop
+    cases t' with
+    | none => rfl
+    | some T => cases T with
+      | zero => exact absurd rfl ht'
+      | succ k => rfl
+  | rup q t' =>
+    simp only [opTimeout, Option.some.injEq] at hop; subst hop
+    cases t' with
+    | none => rfl
+    | some T => cases T with
+      | zero => exact absurd rfl ht'
+      | succ k => rfl
+  | rut t' =>
+    simp only [opTimeout, Option.some.injEq] at hop; subst hop
+    cases t' with
+    | none => rfl
+    | some T => cases T with
+      | zero => exact absurd rfl ht'
+      | succ k => rfl
+  | _ => simp [opTimeout] at hop
+
+/-- uses of the machine's own channel while it is lent -/
+theorem probe_own (k : Nat) :
+    Own.step (Own.step {} (.borrowEnter 0)).2 (probeOp k) = (.errBorrowed, (Own.step {} (.borrowEnter 0)).2) := by
+  match k with
+  | 0 => rfl
+  | 1 => rfl
+  | 2 => rfl
+  | 3 => rfl
+  | 4 => rfl
+  | k + 5 => rfl
+
 end Run
